@@ -617,7 +617,12 @@ def random_project2(rng: random.Random) -> Dict[str, Any]:
             # an import for the type checker only, of a module defined later
             ops.insert(0, {**frm("p.fwd%d" % (i + 1), "Later"), "tc": True})
             cyclic = True
-        exported = [n for n, k in local.items() if "." not in n and not n.startswith("al") and rng.random() < 0.6]
+        imported_here = {o["as"] for o in ops if isinstance(o, dict) and o.get("k") == "from"} | \
+                        ({n for n in local if "." not in n} if any(isinstance(o, dict) and o.get("k") == "star" for o in ops) else set())
+        rebound = imported_here & {n for n, _ in mine}
+        # (a name imported, listed in __all__ and re-bound by the module itself is the recorded finding import-listed-in-all-then-rebound:
+        #  the deterministic families carry it, the random corpus does not)
+        exported = [n for n, k in local.items() if "." not in n and not n.startswith("al") and n not in rebound and rng.random() < 0.6]
         has_all = rng.random() < 0.35 and bool(exported)
         mods.append(mod("m%d" % i, par, ops=ops, all=exported if has_all else None))
         for n, k in mine:
@@ -655,6 +660,7 @@ def random_project2(rng: random.Random) -> Dict[str, Any]:
             mods[pi - 1]["hasAll"] = True
             mods[pi - 1]["all"] = sorted(seen)
     p = project(mods, "RND2")
-    if cyclic:
+    from . import projects as P
+    if cyclic or P.has_import_cycle(p):       # e.g. a package __init__ importing from a sub-module that imports a user of the package
         p["meta"]["cyclic"] = True
     return p
